@@ -3,7 +3,7 @@
    (Spec/C01_Moving_Spec.v: a configured starting LIB, exclusive or inclusive, coherent with the history;
    LIB declarations in the class lib_ok_b; any handler oracle). *)
 From BV Require Import Base.Prelude Model.Block Model.ForkDB Model.Forkable Spec.Consumer Spec.Universe
-  Spec.C01_Spec Spec.C01_Moving_Spec Spec.C04_Spec.
+  Spec.C01_Spec Spec.C01_Moving_Spec Spec.C01_Roots_Spec Spec.C04_Spec.
 Local Open Scope N_scope.
 
 (* ---------------------------------------------------------------- the events of one step, written out *)
@@ -80,6 +80,17 @@ Definition c04_moving_lib_statement : Prop :=
     rooted_mode r0 m ->
     f_new (c_filter cfg) = true -> f_undo (c_filter cfg) = true ->
     moving_scope_b r0 h = true ->
+    c04_statement cfg m h /\
+    (c_fail_at cfg = None ->
+     c04m_run r0 (f_irr (c_filter cfg)) [] r0 [] h (fk_run cfg (fs_init m) h)).
+
+(* the same for the larger class moving_scope2_b of Spec/C01_Roots_Spec.v: blocks with an EMPTY parent id
+   (roots) allowed, fed any number of times *)
+Definition c04_moving_lib_roots_statement : Prop :=
+  forall cfg r0 m h,
+    rooted_mode r0 m ->
+    f_new (c_filter cfg) = true -> f_undo (c_filter cfg) = true ->
+    moving_scope2_b r0 h = true ->
     c04_statement cfg m h /\
     (c_fail_at cfg = None ->
      c04m_run r0 (f_irr (c_filter cfg)) [] r0 [] h (fk_run cfg (fs_init m) h)).
